@@ -1,12 +1,15 @@
 import MxV.Model.MsimpleTheory
+import MxV.Gen.Templates
 /-! # C07 — add_child never accepts a child that makes the element impossible to complete
 Model side, `Tame` templates:
 * `C07_reject_needed`: a child is rejected only when no word of the content model contains it
   together with the children already present (so nothing completable is ever refused — this is
   also the second half of C12);
 * `C07_complete_rootChoice` / `C07_complete_flat`: every reachable state can be extended by further
-  adds to one that passes the final check (explicit completion: the under-filled required leaves of
-  every scope that is required or already non-empty).
+  adds to one that passes the final check (explicit completion `Msimple.need`: the under-filled
+  required leaves of every scope that is required or already non-empty); the side condition
+  `minOccurs ≤ maxOccurs` for every leaf is decided on the regenerated templates
+  (`templates_min_le_max`).
 Partial: `Wild` types (no theorem; bounded completion search in the correspondence run only). -/
 namespace C07
 open Msimple
@@ -76,8 +79,42 @@ theorem C07_complete_rootChoice (mi : Nat) (ma : Option Nat) (ps : List Particle
     | nil => exact absurd rfl hk
     | cons a r => simp [required, flat_not_choice]
 
+/-- every leaf's minOccurs does not exceed its maxOccurs -/
+def wfSpecs (p : Particle) : Bool := p.specs.all fun s => leMax s.2.1 s.2.2
+
+theorem templates_min_le_max : (Gen.implTemplates.all fun kp => wfSpecs kp.2) = true := by decide +kernel
+
+/-- Flat: every reachable state completes — adding `need` (all accepted) gives a state that passes
+    the final check -/
+theorem C07_complete_flat (p : Particle) (hf : isFlat p = true) (hwf : wfSpecs p = true) (k : Kids)
+    (hi : Inv p k) (i : Nat) :
+    runE p k (addOps i (need (cnt (names k)) p)) = .ok (k ++ zipIds i (need (cnt (names k)) p)) ∧
+    required p (k ++ zipIds i (need (cnt (names k)) p)) = [] := by
+  obtain ⟨hfl, hnd⟩ := isFlat_iff.1 hf
+  refine ⟨?_, ?_⟩
+  · apply runE_adds_flat p hf k i _ (need_subset _ p)
+    intro s hs
+    have hle := need_count_le (cnt (names k)) p hnd s hs
+    have hmax := hi.2.1 hf s hs
+    have hmm : leMax s.2.1 s.2.2 = true := by
+      simp only [wfSpecs, List.all_eq_true] at hwf; exact hwf s hs
+    cases hma : s.2.2 with
+    | none => simp [leMax]
+    | some m =>
+      simp only [hma, leMax, decide_eq_true_eq] at hmax hmm ⊢
+      have : count k s.1 = cnt (names k) s.1 := rfl
+      omega
+  · simp only [required, hf, if_true]
+    apply missing_after_need (cnt (names k)) _ p hfl hnd
+    intro n _
+    simp [cnt, names_append, names_zipIds, List.count_append]
+
+example : let p : Particle := .seq 1 (some 1) [.elem 0 1 (some 1), .seq 0 (some 1) [.elem 1 1 (some 1), .elem 2 2 (some 3)]]
+    need (cnt [1]) p = [0, 2, 2] ∧ isFlat p = true ∧ wfSpecs p = true := by decide
 end C07
 
 #print axioms C07.C07_reject_needed_flat
 #print axioms C07.C07_reject_needed_rootChoice
 #print axioms C07.C07_complete_rootChoice
+#print axioms C07.templates_min_le_max
+#print axioms C07.C07_complete_flat
